@@ -624,3 +624,155 @@ Proof.
   - eapply Forall2_compose; [|exact M1|exact S1]. intros a b c0. apply row_sees_compose.
   - rewrite M2. exact S2.
 Qed.
+
+(* ------------------------------------------------------------------ *)
+(* D. written entries (tiles) and whole tables                            *)
+(* ------------------------------------------------------------------ *)
+
+(* rows_read_by_reader: a written CIE and a written FDE of it *)
+Theorem rows_read_by_reader_full dbg be eh aa cpos fpos coff (c : CfiWr.cie) (f : CfiWr.fde) cb fb :
+  cie_wf c = true -> fde_wf f = true ->
+  cie_write dbg be eh cpos c = Ok cb -> fde_write dbg be eh fpos coff c f = Ok fb ->
+  exists cil chdr carea fil fhdr farea,
+    cb = cil ++ chdr ++ carea /\ fb = fil ++ fhdr ++ farea /\
+    len cil = ilen_size (c_fmt64 c) /\ len fil = ilen_size (c_fmt64 c) /\
+    forall dbg' caps cx init range,
+      CfiRun.cap_full (max_stack caps) 0 = false ->
+      let cbase := cpos + len cil + len chdr in
+      let fbase := fpos + len fil + len fhdr in
+      let fi := fde_in_of be aa c init range cbase carea fbase farea in
+      let scr := script_rows_lim caps aa (c_asize c) init range (c_insns c) (f_insns f) in
+      Forall2 (row_sees (in2 cbase carea fbase farea)) (fst (fst (CfiRun.fde_rows dbg' caps fi cx))) (fst scr) /\
+      snd (fst (CfiRun.fde_rows dbg' caps fi cx)) = snd scr.
+Proof.
+  intros Hwf Hfw Hc Hf.
+  pose proof (cie_write_ok_asz _ _ _ _ _ _ Hc) as Hasz.
+  destruct (asz_cases_pow2 _ Hasz) as [Hu Hp].
+  destruct (cie_wf_parts c Hwf) as (_ & Hcaf & Hdaf & Hins).
+  pose proof (fde_wf_parts f Hfw) as Hfins.
+  destruct (cie_write_layout dbg be eh cpos c cb Hu Hp Hc) as (cil & chdr & ci & pad1 & -> & _ & Hl1 & Hw1 & Hn1 & _).
+  destruct (fde_write_layout dbg be eh fpos coff c f fb Hu Hp Hf) as (fil & fhdr & fi & pad2 & -> & _ & Hl2 & Hw2 & Hn2 & _).
+  exists cil, chdr, (ci ++ pad1), fil, fhdr, (fi ++ pad2).
+  split; [reflexivity|]. split; [reflexivity|]. split; [exact Hl1|]. split; [exact Hl2|].
+  intros dbg' caps cx init range Hcap.
+  exact (rows_by_script_areas dbg be aa (c_asize c) (c_caf c) (c_daf c) (c_insns c) (f_insns f) ci fi pad1 pad2
+           Hins Hfins Hcaf Hdaf Hasz Hw1 Hw2 Hn1 Hn2 dbg' caps cx init range _ _ Hcap).
+Qed.
+
+Require GV.Model.CfiRd GV.Model.CfiUwi.
+
+(* the bridge from C05's FDE record to the already-parsed CIE/FDE C06 evaluates (missing item 2 of the partial
+   theorem): for the records the entry reader returns for a written CIE and FDE, CfiUwi.fde_in_of — the
+   adapter used by unwind_info_for_address — is the fde_in of the two written areas *)
+Lemma seen_rows dbg be aa (c : CfiWr.cie) (f : CfiWr.fde) o b (ci : CfiRd.cie) o' b' (fd : CfiRd.fde) :
+  cie_wf c = true -> fde_wf f = true -> asz_ok (c_asize c) ->
+  cie_seen dbg c o b ci -> fde_seen dbg be c f o' b' ci fd ->
+  forall dbg' caps cx,
+    CfiRun.cap_full (max_stack caps) 0 = false ->
+    let fi := CfiUwi.fde_in_of be aa fd in
+    let scr := script_rows_lim caps aa (c_asize c) (CfiRd.fd_init fd) (CfiRd.fd_range fd) (c_insns c) (f_insns f) in
+    Forall2 (row_sees (in2 (CfiRd.off (CfiRd.ci_instr ci)) (CfiRd.win (CfiRd.ci_instr ci))
+                           (CfiRd.off (CfiRd.fd_instr fd)) (CfiRd.win (CfiRd.fd_instr fd))))
+            (fst (fst (CfiRun.fde_rows dbg' caps fi cx))) (fst scr) /\
+    snd (fst (CfiRun.fde_rows dbg' caps fi cx)) = snd scr.
+Proof.
+  intros Hwf Hfw Hasz (_ & _ & _ & A4 & A5 & A6 & _ & _ & ins1 & pad1 & Hw1 & Hn1 & _ & Hwin1 & _)
+         (_ & _ & B3 & _ & _ & _ & ins2 & pad2 & Hw2 & Hn2 & _ & Hwin2) dbg' caps cx Hcap.
+  destruct (cie_wf_parts c Hwf) as (_ & Hcaf & Hdaf & Hins).
+  pose proof (fde_wf_parts f Hfw) as Hfins.
+  cbv zeta.
+  assert (E : CfiUwi.fde_in_of be aa fd =
+              mk_fde_in be aa (c_asize c) (c_caf c) (c_daf c) (CfiRd.fd_init fd) (CfiRd.fd_range fd)
+                        (CfiRd.off (CfiRd.ci_instr ci)) (ins1 ++ pad1) (CfiRd.off (CfiRd.fd_instr fd)) (ins2 ++ pad2)).
+  { unfold CfiUwi.fde_in_of, mk_fde_in. rewrite B3, A4, A5, A6, Hwin1, Hwin2. reflexivity. }
+  rewrite E, Hwin1, Hwin2.
+  exact (rows_by_script_areas dbg be aa (c_asize c) (c_caf c) (c_daf c) (c_insns c) (f_insns f) ins1 ins2 pad1 pad2
+           Hins Hfins Hcaf Hdaf Hasz Hw1 Hw2 Hn1 Hn2 dbg' caps cx _ _ _ _ Hcap).
+Qed.
+
+(* per tile of a written section: what the reader's table evaluation returns for the k-th FDE tile *)
+Section TableRows.
+  Variables (dbg' be eh : bool) (asz : N) (cies : list CfiWr.cie) (fdes : list (nat * CfiWr.fde)) (sec : list byte).
+
+  Definition fde_rows_by_script (c : CfiWr.cie) (f : CfiWr.fde) (fd : CfiRd.fde) : Prop :=
+    CfiRd.fd_init fd = addr_val (f_addr f) mod 2 ^ (8 * c_asize c) /\ CfiRd.fd_range fd = f_len f /\
+    forall aa dbg2 caps cx,
+      CfiRun.cap_full (max_stack caps) 0 = false ->
+      let fi := CfiUwi.fde_in_of be aa fd in
+      let scr := script_rows_lim caps aa (c_asize c) (CfiRd.fd_init fd) (CfiRd.fd_range fd) (c_insns c) (f_insns f) in
+      Forall2 (row_sees (in2 (CfiRd.off (CfiRd.ci_instr (CfiRd.fd_cie fd))) (CfiRd.win (CfiRd.ci_instr (CfiRd.fd_cie fd)))
+                             (CfiRd.off (CfiRd.fd_instr fd)) (CfiRd.win (CfiRd.fd_instr fd))))
+              (fst (fst (CfiRun.fde_rows dbg2 caps fi cx))) (fst scr) /\
+      snd (fst (CfiRun.fde_rows dbg2 caps fi cx)) = snd scr.
+
+  Fixpoint rows_seen (chunks : list (CfaEncSpec.item * list byte)) (items : list CfiRd.item) : Prop :=
+    match chunks, items with
+    | [], [] => True
+    | (CfaEncSpec.ICie _, _) :: r, CfiRd.ICie _ :: its => rows_seen r its
+    | (CfaEncSpec.IFde k, _) :: r, CfiRd.IFde p :: its =>
+        (exists idx f c fd,
+           nth_error fdes k = Some (idx, f) /\ nth_error cies idx = Some c /\
+           CfiRd.fde_parse dbg' (rd_cfg eh be asz) sec p = Ok fd /\ fde_rows_by_script c f fd)
+        /\ rows_seen r its
+    | _, _ => False
+    end.
+End TableRows.
+
+Lemma reader_sees_rows dbg dbg' be eh asz cies fdes sec :
+  Forall (fun c => cie_wf c = true /\ c_asize c = asz) cies ->
+  Forall (fun p => fde_wf (snd p) = true) fdes ->
+  asz_ok asz ->
+  forall chunks pos placed items,
+    reader_sees dbg dbg' be eh asz cies fdes sec pos placed chunks items ->
+    rows_seen dbg' be eh asz cies fdes sec chunks items.
+Proof.
+  intros HC HF Hasz. induction chunks as [|[[idx|k] b] r IH]; intros pos placed items H; destruct items as [|[ci|p] its];
+    cbn [reader_sees rows_seen] in *; try contradiction; try exact I.
+  - destruct H as [_ H]. eapply IH. exact H.
+  - destruct H as [(idx & f & c & coff & ci & fd & Hk & Hn & _ & Hpc & _ & _ & Hparse & Hseen) H].
+    split; [|eapply IH; exact H].
+    exists idx, f, c, fd. split; [exact Hk|]. split; [exact Hn|]. split; [exact Hparse|].
+    assert (Hcw : cie_wf c = true /\ c_asize c = asz).
+    { rewrite Forall_forall in HC. apply HC. eapply nth_error_In. exact Hn. }
+    destruct Hcw as [Hcw Hca].
+    assert (Hfw : fde_wf f = true).
+    { rewrite Forall_forall in HF. apply (HF (idx, f)). eapply nth_error_In. exact Hk. }
+    destruct Hpc as (c' & cb & pre & post & Hn' & _ & _ & Hcs & _).
+    rewrite Hn in Hn'. injection Hn' as <-.
+    pose proof Hseen as (_ & _ & B3 & B4 & B5 & _).
+    split; [exact B4|]. split; [exact B5|].
+    intros aa dbg2 caps cx Hcap. rewrite B3.
+    apply (seen_rows dbg be aa c f coff cb ci pos b fd Hcw Hfw ltac:(rewrite Hca; exact Hasz) Hcs Hseen dbg2 caps cx Hcap).
+Qed.
+
+(* table_rows_read_by_reader: entries_read_by_reader, and for every FDE tile the unwind table that the reader
+   model computes for the FDE record the entry reader returned is the table of the script machine *)
+Theorem table_rows_read_by_reader_lem dbg dbg' be eh asz (t : ftable) bs :
+  Forall (fun c => cie_wf c = true /\ c_asize c = asz) (t_cies t) ->
+  Forall (fun p => fde_wf (snd p) = true) (t_fdes t) ->
+  len bs + 16 < 4294967295 ->
+  write_table dbg be eh 0 t = Ok bs ->
+  exists chunks items,
+    map fst chunks = plan [] 0 (map fst (t_fdes t)) /\
+    bs = concat (map snd chunks) /\
+    CfiRd.entries_all dbg' (rd_cfg eh be asz) bs = Ok (items, None) /\
+    reader_sees dbg dbg' be eh asz (t_cies t) (t_fdes t) bs 0 [] chunks items /\
+    rows_seen dbg' be eh asz (t_cies t) (t_fdes t) bs chunks items.
+Proof.
+  intros HC HF Hsmall H.
+  destruct (entries_read_by_reader_lem dbg dbg' be eh asz t bs HC HF Hsmall H) as (chunks & items & H1 & H2 & H3 & H4).
+  exists chunks, items. repeat split; try assumption.
+  destruct (t_fdes t) as [|[idx f] fr] eqn:Ef.
+  - (* no FDE: nothing is written *)
+    cbn [map plan] in H1. destruct chunks; [|discriminate]. destruct items; [exact I|]. cbn [reader_sees] in H4. contradiction.
+  - (* the address size is that of a written CIE *)
+    assert (Hasz : asz_ok asz).
+    { destruct (write_table_tiled dbg be eh 0 t bs H) as (ch & Hp & _ & Hwt).
+      rewrite Ef in Hp. cbn [map plan existsb] in Hp. destruct ch as [|[it0 b0] ch]; [discriminate|].
+      cbn [map fst] in Hp. injection Hp as Hit _. subst it0.
+      cbn [well_tiled] in Hwt. destruct Hwt as [(c & Hn & Hw) _].
+      assert (Hcw : cie_wf c = true /\ c_asize c = asz).
+      { rewrite Forall_forall in HC. apply HC. eapply nth_error_In. exact Hn. }
+      destruct Hcw as [_ <-]. eapply cie_write_ok_asz. exact Hw. }
+    rewrite <- Ef in *. eapply reader_sees_rows; eassumption.
+Qed.
